@@ -345,7 +345,11 @@ def main(rep):
     rep.assume("random.random() uniform on [0,1), randrange uniform (trusted primitives)",
                "continuous draws are discretised to per-draw co-prime midpoint grids: the verdict is "
                "'no deviation from uniform larger than tau for these (k,n)', not exact uniformity",
-               "states = distinct final reservoir contents, transitions = complete paths of the choice tree")
+               "states = distinct final reservoir contents, transitions = complete paths of the choice tree",
+               "scenario 'with-neighbours' (small (k,n)): every other public storage / imputer / explainer class is "
+               "constructed after observation k; a library-side re-seed of a global generator makes the later draws of that "
+               "generator non-random (they are enumerated with weight 1 and uniformity is judged for every fixed answer "
+               "sequence)")
     return rep.finish(
         rule="full weighted enumeration of all paths per (k,n,grid); non-trivial = distinct (k,n,final "
              "k-subset) reached with positive probability")
